@@ -166,8 +166,8 @@ func (rm *RegistrationManager) VerifAdmit(secret []byte, tt pb.TransportType, pa
 
 // VerifTimeoutUsed reports whether the registration's timeout record is marked used.
 func (rm *RegistrationManager) VerifTimeoutUsed(reg *DecoyRegistration) bool {
-	to, ok := rm.registeredDecoys.decoysTimeouts[reg.IDString()+reg.PhantomIp.String()]
-	return ok && to.status == regStatusUsed
+	to := verifTimeoutOf(rm.registeredDecoys, reg)
+	return to != nil && to.status == regStatusUsed
 }
 
 // VerifParse runs a forwarded registration message through the ingest parser
